@@ -332,7 +332,7 @@ type world struct {
 	// what the oracle needs to know about the Store calls so far
 	storeErrs   int
 	tooLong     bool // some Store call failed with bufio.ErrTooLong
-	unflushed   bool // some recorded update has not been given to a Store call
+	unflushed   bool // some update was recorded after the last Store call
 	reusedRef   bool // the scenario scripted a uuid that was already written out
 	rawScenario bool
 }
@@ -370,6 +370,18 @@ func (w *world) recsArg(toks []int) string {
 		ss[i] = fmt.Sprintf("%d:%d", t, w.p.items[t].n)
 	}
 	return strings.Join(ss, ",")
+}
+
+// toksDesc lists record tokens for a witness, with the line length of big ones.
+func (w *world) toksDesc(toks []int) string {
+	ss := make([]string, len(toks))
+	for i, t := range toks {
+		ss[i] = strconv.Itoa(t)
+		if n := w.p.items[t].n; n > 4096 {
+			ss[i] += fmt.Sprintf("(%dB)", n)
+		}
+	}
+	return "[" + strings.Join(ss, " ") + "]"
 }
 
 func sizeBucket(n int) string {
@@ -426,6 +438,10 @@ func (w *world) record(op byte, updater, fp string, toks []int, collide []uint64
 				del := make([]string, ndel)
 				for i := range del {
 					del[i] = fmt.Sprintf("CVE-del-%d", i)
+					if i < len(vs) && i%2 == 0 {
+						// a name that is also being recorded: deletions are ignored, as coded
+						del[i] = vs[i].Name
+					}
 				}
 				ref, err = w.st.DeltaUpdateVulnerabilities(ctx, updater, driver.Fingerprint(fp), vs, del)
 			} else {
@@ -452,7 +468,7 @@ func (w *world) record(op byte, updater, fp string, toks []int, collide []uint64
 	if op == 'd' {
 		k = 'v'
 	}
-	desc := fmt.Sprintf("%c(updater=%q fp=%q records=%v)", op, updater, fp, toks)
+	desc := fmt.Sprintf("%c(updater=%q fp=%q records=%s)", op, updater, fp, w.toksDesc(toks))
 	w.hist = append(w.hist, desc)
 	if out == "" {
 		u := &update{kind: k, updater: updater, fp: fp, toks: toks, ref: canon(ref), desc: desc}
@@ -502,14 +518,17 @@ func (w *world) parseWritten(b []byte) (lines []string, refs []uint64) {
 		case string(driver.VulnerabilityKind):
 			k = "v"
 			tok = "?"
-			if t, ok := w.p.byKey["v"+string(d.Vuln)]; ok && d.Enrichment == nil {
-				tok = strconv.Itoa(t)
+			// the payload is identified by its decoded value, not by its bytes
+			var v claircore.Vulnerability
+			if d.Enrichment == nil && d.Vuln != nil && json.Unmarshal(d.Vuln, &v) == nil {
+				tok = w.p.tokOfVuln(&v)
 			}
 		case string(driver.EnrichmentKind):
 			k = "e"
 			tok = "?"
-			if t, ok := w.p.byKey["e"+string(d.Enrichment)]; ok && d.Vuln == nil {
-				tok = strconv.Itoa(t)
+			var e driver.EnrichmentRecord
+			if d.Vuln == nil && d.Enrichment != nil && json.Unmarshal(d.Enrichment, &e) == nil {
+				tok = w.p.tokOfEnrichment(e)
 			}
 		}
 		c := canon(d.Ref)
@@ -603,7 +622,10 @@ func (w *world) store() {
 			w.r.Count("store:err-too-long")
 		}
 	}
-	w.unflushed = len(left) > 0
+	// The Store call has been handed every update recorded so far; the
+	// statement is judged on that, not on what the map still holds. A Store
+	// error is itself a failure of the statement (see oracle).
+	w.unflushed = false
 }
 
 func keysOf(m map[uint64]*update) map[uint64]bool {
@@ -1275,6 +1297,14 @@ func Run(cfg hx.Config) error {
 		script(r, p, fmt.Sprintf("%s%s%d%s S L", pre, k, n, post))
 		r.Count("big:scenario")
 	}
+	// the zip-of-zips export of updater/ (black box, oracle only)
+	quiet()
+	v1Witness(r)
+	nv := cfg.N(300, 6000)
+	for i := 0; i < nv && !r.Stop(); i++ {
+		v1Scenario(r, rnd)
+	}
+	r.Notes["v1_export_import_scenarios"] = nv
 	time.Sleep(20 * time.Millisecond)
 	if after := runtime.NumGoroutine(); after > before+2 {
 		r.Fail("", fmt.Sprintf("goroutines leaked: before=%d after=%d", before, after))
